@@ -1,10 +1,10 @@
 SPECIFICATION Spec
 CONSTANTS
   Fields <- FT
-  MaxLogN = 6
-  MaxLen = 16
+  MaxLogN = 9
+  MaxLen = 40
   Exponents <- ExpT
-  MaxLogH = 6
+  MaxLogH = 9
 INVARIANTS
   Emit
 CHECK_DEADLOCK FALSE
